@@ -9,6 +9,7 @@ Property theorems only.  The one-axis results are those of `OdcGeo.Props.C20`
 -/
 import OdcGeo.Model.C08
 import OdcGeo.Lemmas.C08
+import OdcGeo.Lemmas.C08C02
 import OdcGeo.Props.C20
 
 namespace OdcGeo.C08
@@ -204,6 +205,65 @@ theorem from_bbox_int_shape_reduces (bb : BBox) (tight : Bool) (n : Int) (res : 
   simp only [intShapeToRes, if_neg hy, if_neg hn]
   split <;> rfl
 
+/-- `maybe_int` leaves an integer value unchanged whatever the tolerance. -/
+theorem maybeInt_intCast_any (n : Int) (tol : Rat) : C20.maybeInt (n : Rat) tol = n := by
+  cases h : C20.maybeInt? (n : Rat) tol with
+  | none => exact C20.maybeInt_of_none h
+  | some k =>
+    rw [C20.maybeInt_of_some h]
+    have ht : 0 < tol := lt_of_le_of_lt (abs_nonneg _) (C20.maybeInt?_some h).2.1
+    have := C20.maybeInt?_intCast n ht
+    rw [h] at this
+    exact_mod_cast (Option.some.inj this)
+
+/-- **Single-number shape, floating / tight: the longest side gets exactly `n` pixels**, pixels are
+square (`span_long / n`, north-up), the grid starts at the region's top-left corner.  (With an
+anchor the longest side has `n` or `n + 1` pixels: `from_bbox_res_minimal` applies.) -/
+theorem from_bbox_int_shape_floating_longest (bb : BBox) (tight : Bool) (n : Int) (res : ResArg)
+    (anchor : AnchorArg) (tol : Rat) (hn : 0 < n) (hx : bb.left < bb.right) (hy : bb.bottom < bb.top)
+    (hsn : snapOf tight (normAnchor anchor) = none) :
+    ∃ g, fromBbox bb tight (.int n) res anchor tol = .ok g ∧
+      (bb.spanX / bb.spanY > 1 → g.nx = n ∧ g.affine.a = bb.spanX / n ∧ g.affine.e = -(bb.spanX / n)) ∧
+      (¬ bb.spanX / bb.spanY > 1 → g.ny = n ∧ g.affine.a = bb.spanY / n ∧ g.affine.e = -(bb.spanY / n)) ∧
+      g.affine.c = bb.left ∧ g.affine.f = bb.top ∧ g.affine.b = 0 ∧ g.affine.d = 0 ∧ 1 ≤ g.nx ∧ 1 ≤ g.ny := by
+  have hn' : (0 : Rat) < n := by exact_mod_cast hn
+  have hsx : 0 < bb.spanX := by unfold BBox.spanX; linarith
+  have hsy : 0 < bb.spanY := by unfold BBox.spanY; linarith
+  rw [from_bbox_int_shape_reduces bb tight n res anchor tol (ne_of_gt hsy) (by omega)]
+  -- the square pixel
+  generalize hr : (if bb.spanX / bb.spanY > 1 then bb.spanX / (n : Rat) else bb.spanY / (n : Rat)) = r
+  have hrpos : 0 < r := by
+    rw [← hr]; split
+    · exact div_pos hsx hn'
+    · exact div_pos hsy hn'
+  rw [fromBbox_res_eq (rx := r) (ry := -r) (by intro m h; cases h) rfl, hsn]
+  simp only [Option.map_none]
+  have hgx : snapGrid bb.left bb.right r none tol =
+      .ok (bb.left, max 1 (C20.maybeInt ((bb.right - bb.left) / r) tol).ceil) := by
+    unfold snapGrid; simp only; rw [if_pos hrpos]
+  have hgy : snapGrid bb.bottom bb.top (-r) none tol =
+      .ok (bb.top, max (C20.maybeInt ((bb.top - bb.bottom) / r) tol).ceil 1) := by
+    unfold snapGrid; simp only
+    rw [if_neg (by linarith), if_neg (by linarith), neg_neg]
+  rw [hgx, hgy]
+  refine ⟨_, rfl, ?_, ?_, ?_⟩
+  · intro hlong
+    rw [if_pos hlong] at hr
+    have hq : (bb.right - bb.left) / r = (n : Rat) := by
+      have hne : bb.right - bb.left ≠ 0 := by linarith
+      rw [← hr]; unfold BBox.spanX; field_simp
+    simp only [ts_eq, hq, maybeInt_intCast_any, Rat.ceil_intCast]
+    exact ⟨max_eq_right (by omega), hr.symm, by rw [hr]⟩
+  · intro hshort
+    rw [if_neg hshort] at hr
+    have hq : (bb.top - bb.bottom) / r = (n : Rat) := by
+      have hne : bb.top - bb.bottom ≠ 0 := by linarith
+      rw [← hr]; unfold BBox.spanY; field_simp
+    simp only [ts_eq, hq, maybeInt_intCast_any, Rat.ceil_intCast]
+    exact ⟨max_eq_left (by omega), hr.symm, by rw [hr]⟩
+  · rw [ts_eq]
+    exact ⟨rfl, rfl, rfl, rfl, le_max_left _ _, le_max_right _ _⟩
+
 /-! ## shape-driven construction -/
 
 section shape
@@ -351,6 +411,128 @@ theorem from_geopolygon_covers_vertices (p : Rat × Rat) (ps : List (Rat × Rat)
   intro q hq
   obtain ⟨b1, b2, b3, b4⟩ := bbox_of_pts_contains p ps q hq
   exact ⟨by linarith, by linarith, by linarith, by linarith⟩
+
+/-! ## `tight` / anchor interplay, utm shortcut, `zoom_to(resolution=)` -/
+
+/-- **What HEAD does with an explicit anchor when `tight=True`: it is ignored** — also an explicit
+per-axis `XY` anchor (`if tight: anchor = FLOATING` runs before the anchor is looked at).  The result
+depends on the region, shape/resolution and `tol` only. -/
+theorem from_bbox_tight_ignores_anchor (bb : BBox) (shape : ShapeArg) (res : ResArg) (a a' : AnchorArg)
+    (tol : Rat) : fromBbox bb true shape res a tol = fromBbox bb true shape res a' tol := by
+  unfold fromBbox
+  simp only [tight_is_floating]
+
+/-- The `crs="utm"` shortcut is `from_bbox` of the envelope of the four projected corners, i.e. the
+polygon variant on the projected corner ring (whatever the projection is). -/
+theorem from_bbox_utm_is_polygon_of_corners (proj : Rat × Rat → Rat × Rat) (bb : BBox) (tight : Bool)
+    (shape : ShapeArg) (res : ResArg) (anchor : AnchorArg) (tol : Rat) :
+    fromBboxUtm proj bb tight shape res anchor tol =
+      fromGeopolygon (proj (bb.left, bb.bottom)) [proj (bb.left, bb.top), proj (bb.right, bb.top), proj (bb.right, bb.bottom)]
+        res none shape tight anchor tol := by
+  rw [(from_geopolygon_reduces_to_bbox _ _ res shape tight anchor tol).1]
+  rfl
+
+/-- **utm shortcut covers the projected corners**: every corner of the lon/lat box, projected, lies
+within the resulting geobox up to `tol` of a pixel.  (Only the corners: the sides of a lon/lat box
+are not straight in UTM and are not sampled by the code.) -/
+theorem from_bbox_utm_covers_corners (proj : Rat × Rat → Rat × Rat) (bb : BBox) {res : ResArg}
+    {shape : ShapeArg} {tight : Bool} {anchor : AnchorArg} {tol rx ry : Rat} {g : GeoBox}
+    (hs : ∀ n, shape ≠ .int n) (hres : res.xy? = some (rx, ry))
+    (v : ValidRes (normBboxUtm proj bb) rx ry tol (snapOf tight (normAnchor anchor)))
+    (h : fromBboxUtm proj bb tight shape res anchor tol = .ok g) :
+    ∀ c ∈ bb.corners, g.xmin - tol * |rx| ≤ (proj c).1 ∧ (proj c).1 ≤ g.xmax + tol * |rx| ∧
+      g.ymin - tol * |ry| ≤ (proj c).2 ∧ (proj c).2 ≤ g.ymax + tol * |ry| := by
+  rw [from_bbox_utm_is_polygon_of_corners] at h
+  have hv := from_geopolygon_covers_vertices _ _ hs hres v h
+  intro c hc
+  simp only [BBox.corners, List.mem_cons, List.mem_nil_iff, or_false] at hc
+  rcases hc with rfl | rfl | rfl | rfl
+  · exact hv _ (by simp)
+  · exact hv _ (by simp)
+  · exact hv _ (by simp)
+  · exact hv _ (by simp)
+
+/-- **Cross-CRS polygon variant covers every projected vertex** up to `tol` of a pixel: it is the
+same-CRS construction on the projected vertices (the vertices, not the bounding box, are projected —
+for a non-rectangular polygon and a non-separable projection the two differ). -/
+theorem from_geopolygon_crs_covers_vertices (proj : Rat × Rat → Rat × Rat) (p : Rat × Rat)
+    (ps : List (Rat × Rat)) {res : ResArg} {shape : ShapeArg} {tight : Bool} {anchor : AnchorArg}
+    {tol rx ry : Rat} {g : GeoBox} (hs : ∀ n, shape ≠ .int n) (hres : res.xy? = some (rx, ry))
+    (v : ValidRes (bboxOfPts (proj p) (ps.map proj)) rx ry tol (snapOf tight (normAnchor anchor)))
+    (h : fromGeopolygonCrs proj p ps res none shape tight anchor tol = .ok g) :
+    ∀ q ∈ p :: ps, g.xmin - tol * |rx| ≤ (proj q).1 ∧ (proj q).1 ≤ g.xmax + tol * |rx| ∧
+      g.ymin - tol * |ry| ≤ (proj q).2 ∧ (proj q).2 ≤ g.ymax + tol * |ry| := by
+  have hv := from_geopolygon_covers_vertices (proj p) (ps.map proj) hs hres v h
+  intro q hq
+  apply hv
+  rcases List.mem_cons.mp hq with rfl | hq
+  · exact List.mem_cons_self ..
+  · exact List.mem_cons_of_mem _ (List.mem_map.mpr ⟨q, hq, rfl⟩)
+
+/-- Projecting the bounding box instead of the polygon is **not** the same thing: a triangle under a
+shear-like map (seeded change C08-8 did exactly this).  Envelope of projected vertices vs envelope
+of the projected corners of the envelope. -/
+theorem project_vertices_ne_project_bbox :
+    let proj : Rat × Rat → Rat × Rat := fun q => (q.1 + q.2, q.2)
+    bboxOfPts (proj (0, 0)) ([(4, 0), (0, 4)].map proj) ≠
+      normBboxUtm proj (bboxOfPts (0, 0) [(4, 0), (0, 4)]) := by
+  decide +kernel
+
+/-- **Composition with C02: `GeoBox.zoom_to(resolution=(rx, ry))` *is* `from_bbox` of the geobox's
+bounding box with `tight=True`, the default anchor (ignored) and the default `tol = 0.01`.**
+C02 models the call with its own tight-snapping helper; this theorem identifies it with the C08
+model of `from_bbox`, for every geobox (rotated ones included: the bounding box is the hull of the
+four corner images) and every resolution (zero components raise `ZeroDivisionError` on both sides). -/
+theorem zoom_to_resolution_is_from_bbox (g : C02.GeoBox) (rx ry : Rat) :
+    C02.zoomToRes g rx ry =
+      (fromBbox ⟨(C02.boundingbox g).left, (C02.boundingbox g).bottom, (C02.boundingbox g).right,
+                 (C02.boundingbox g).top⟩ true .none (.xy rx ry) (.name .default) C02.tolSnap).map
+        (fun h => (⟨h.ny, h.nx, h.affine, g.crs⟩ : C02.GeoBox)) := by
+  have htol : C02.tolSnap ≤ 1 / 2 := by
+    unfold C02.tolSnap; rw [Rat.mkRat_eq_div]; norm_num
+  have hx : (C02.boundingbox g).left ≤ (C02.boundingbox g).right := by
+    simp only [C02.boundingbox]; exact min4_le_max4 _ _ _ _
+  have hy : (C02.boundingbox g).bottom ≤ (C02.boundingbox g).top := by
+    simp only [C02.boundingbox]; exact min4_le_max4 _ _ _ _
+  rw [fromBbox_res_eq (rx := rx) (ry := ry) (by intro n h; cases h) rfl]
+  simp only [tight_is_floating, Option.map_none]
+  unfold C02.zoomToRes
+  simp only [snapGridTight_eq _ _ _ _ hx htol, snapGridTight_eq _ _ _ _ hy htol]
+  cases h1 : snapGrid (C02.boundingbox g).left (C02.boundingbox g).right rx none C02.tolSnap with
+  | error e => simp [bind, Except.bind, Except.map]
+  | ok p =>
+    cases h2 : snapGrid (C02.boundingbox g).bottom (C02.boundingbox g).top ry none C02.tolSnap with
+    | error e => simp [bind, Except.bind, Except.map]
+    | ok q => simp [bind, Except.bind, Except.map, pure, Except.pure]
+
+/-- Consequently `zoom_to(resolution=)` inherits the C08 guarantees: exactly the requested pixel
+size, origin at the bounding box corner, at least one pixel per axis, the bounding box covered up
+to 1 % of a pixel and exceeded by at most a pixel (+1 %) per side. -/
+theorem zoom_to_resolution_covers (g : C02.GeoBox) (rx ry : Rat) (hrx : rx ≠ 0) (hry : ry ≠ 0) :
+    ∃ z : C02.GeoBox, C02.zoomToRes g rx ry = .ok z ∧ 1 ≤ z.nx ∧ 1 ≤ z.ny ∧
+      z.A.a = rx ∧ z.A.e = ry ∧ z.A.b = 0 ∧ z.A.d = 0 ∧
+      (let h : GeoBox := ⟨z.ny, z.nx, z.A⟩
+       h.xmin ≤ (C02.boundingbox g).left + C02.tolSnap * |rx| ∧
+       (C02.boundingbox g).right - C02.tolSnap * |rx| ≤ h.xmax ∧
+       h.ymin ≤ (C02.boundingbox g).bottom + C02.tolSnap * |ry| ∧
+       (C02.boundingbox g).top - C02.tolSnap * |ry| ≤ h.ymax) := by
+  have htol0 : 0 ≤ C02.tolSnap := by unfold C02.tolSnap; rw [Rat.mkRat_eq_div]; norm_num
+  have htol : C02.tolSnap < 1 / 2 := by unfold C02.tolSnap; rw [Rat.mkRat_eq_div]; norm_num
+  have hx : (C02.boundingbox g).left ≤ (C02.boundingbox g).right := by
+    simp only [C02.boundingbox]; exact min4_le_max4 _ _ _ _
+  have hy : (C02.boundingbox g).bottom ≤ (C02.boundingbox g).top := by
+    simp only [C02.boundingbox]; exact min4_le_max4 _ _ _ _
+  let bb : BBox := ⟨(C02.boundingbox g).left, (C02.boundingbox g).bottom, (C02.boundingbox g).right,
+    (C02.boundingbox g).top⟩
+  have v : ValidRes bb rx ry C02.tolSnap (snapOf true (normAnchor (.name .default))) :=
+    ⟨hx, hy, hrx, hry, htol0, htol, by intro s hs; cases hs⟩
+  obtain ⟨h, hh, hn1, hn2⟩ := from_bbox_res_total (shape := .none) (res := .xy rx ry)
+    (by intro n hn; cases hn) rfl v
+  obtain ⟨_, ha, he, hb, hd⟩ := from_bbox_res_pixel_size (shape := .none) (res := .xy rx ry)
+    (by intro n hn; cases hn) rfl hh
+  have hc := from_bbox_res_covers (shape := .none) (res := .xy rx ry) (by intro n hn; cases hn) rfl v hh
+  refine ⟨⟨h.ny, h.nx, h.affine, g.crs⟩, ?_, hn1, hn2, ha, he, hb, hd, hc⟩
+  rw [zoom_to_resolution_is_from_bbox, hh]; rfl
 
 /-! ## non-vacuity -/
 
